@@ -15,6 +15,9 @@ reading its socket: while stored answers are owed to it (stalled_reader), and wh
 state changes in mid-life (midlife_sessions): with NIP-42 on, AUTH (valid, invalid, repeated, as another identity) arrives at
 random points of sessions of REQ / CLOSE / EVENT / disconnect on several connections; after every step the registry holds exactly
 what the clients opened and did not close, pushes go to exactly the open matching subscriptions, nothing goes to an ended connection.
+Slow consumers that resume (slow_consumer_resumes): a client stops reading while stored answers, live pushes, an OK or a NOTICE are
+owed to it, stays like that for 1500 s of the loop's clock (advanced by the harness), reads again and keeps using the connection:
+the relay has closed the connection, or every later REQ gets its EOSE, every later EVENT its OK, later live events arrive.
 """
 import asyncio
 import copy
@@ -463,8 +466,9 @@ def stalled_reader(report, backend):
         relay.close()
 
 
-def _until_quiet(relay, idle_s=8.0, cap_s=300.0):
-    """Run the loop until nothing is in flight (Relay.quiescent, then the LMDB writer drained, as Relay.settle does).  Unlike
+def _until_quiet(relay, idle_s=8.0, cap_s=300.0, at_rest=None):
+    """Run the loop until nothing is in flight (Relay.quiescent — or the caller's `at_rest`, a scenario that knows more about
+    one of its connections —, then the LMDB writer drained, as Relay.settle does).  Unlike
     Relay.settle this is not a time budget for the work: a burst of hundreds of frames may take long on a loaded machine and is
     waited for as long as *something moves* (a frame sent, a message consumed, a queue growing, a connection ending).  It gives
     up — returns False — only when nothing at all has moved for idle_s although work is outstanding: that is what "wedged" means.
@@ -484,7 +488,7 @@ def _until_quiet(relay, idle_s=8.0, cap_s=300.0):
             now, cur = loop.time(), moved()
             if cur != last:
                 last, t_last = cur, now
-            stable = stable + 1 if relay.quiescent() else 0
+            stable = stable + 1 if (at_rest or relay.quiescent)() else 0
             if not stable and (now - t_last > idle_s or now - t0 > cap_s):
                 return False
         return True
@@ -1076,6 +1080,363 @@ def midlife_sessions(report, backend, rng, tag, n_steps):
         relay.close()
 
 
+# ------------------------------------------------------------------------------------------------------------
+# Slow consumers that resume.
+class _LoopClock:
+    """The clock of the relay's event loop with an offset that the harness advances: `advance(s)` lets s seconds pass at once for
+    everything that measures time with the loop (asyncio.timeout / async_timeout, wait_for, call_later, call_at — every deadline
+    that lies within the interval is due the next time the loop runs) without anybody having to wait for it.  Time only moves
+    forward; the loop belongs to one Relay and goes with it."""
+
+    def __init__(self, loop):
+        real = loop.time
+        self.offset = 0.0
+        loop.time = lambda: real() + self.offset
+
+    def advance(self, seconds):
+        self.offset += seconds
+
+
+class _Gate(asyncio.Event):
+    """the event a send to a client that is not reading waits on (Conn._unstall), which also knows *which* tasks are parked in
+    such a send: the connection's sender task (EVENT / EOSE of subscriptions) or its handler itself (OK / NOTICE / AUTH)"""
+
+    def __init__(self):
+        super().__init__()
+        self.parked = set()
+
+    async def wait(self):
+        me = asyncio.current_task()
+        self.parked.add(me)
+        try:
+            return await super().wait()
+        finally:
+            self.parked.discard(me)
+
+
+# lib.proto.Conn starts every handler with this idle timeout (message_timeout, shipped default 1800 s): a client that sends nothing
+# for that long is rightly disconnected by the relay, so the simulated time of one scenario stays below it
+HARNESS_MESSAGE_TIMEOUT = 3600.0
+# How long the slow client does not read, in seconds of the loop's clock.  Not tuned to any option: it is most of the shipped idle
+# timeout (1800 s), and a bound on how long a send may take that is meant to act before the idle timeout does is shorter than that;
+# operating-system and proxy write timeouts are of the order of 10..10^2 s.
+STALL_S = 1500.0
+
+
+def _event_matching(relay, rng, f, content):
+    """a fresh event that the filter f (kinds / authors / one tag, as _simple_match reads it) matches"""
+    authors = [k.public_key.hex() for k in KEYS]
+    key = KEYS[authors.index(rng.choice(f["authors"]))] if "authors" in f else KEYS[rng.randrange(len(KEYS))]
+    kind = rng.choice(f["kinds"]) if "kinds" in f else rng.choice([1, 7, EPHEMERAL])
+    tags = [["t", rng.choice(f["#t"])]] if "#t" in f else ([["t", "z"]] if rng.random() < 0.2 else [])
+    return relay.signed_event(key, kind=kind, content=content, tags=tags)
+
+
+def slow_consumer_resumes(report, backend, rng, tag):
+    """A slow consumer that resumes.  One connection stops reading its socket while something is owed to it — the stored answer
+    of a REQ, live pushes of its subscriptions (both wait in its sender task), the OK of an EVENT or the NOTICE of an unusable REQ
+    (the handler itself waits in the send) — goes on sending commands or not, stays like that for STALL_S seconds of the loop's clock
+    (so that whatever bound the relay puts on a send, an idle period or a queue wait has long expired), then reads again and keeps
+    using the connection; once or twice per session.  The stalled_* scenarios above never resume: they see what a non-reading client
+    does to the others, this one sees what the relay has made of the connection itself.  What the relay does about a peer that does
+    not read — wait, drop what it could not deliver, close the connection — is its business.  What must hold:
+      * the relay either closed the connection (then its handler ends as soon as the transport reports the close, and its
+        subscriptions are gone) or the connection works: every REQ sent after the client resumed gets its EOSE, every EVENT it sends
+        its OK true, and an event published by another connection afterwards arrives for every subscription the client has opened
+        and not closed and that matches it (before, during or after the stall) — never an open connection that has silently
+        stopped answering;
+      * throughout (client not reading, time passing, client reading again) every EVENT of another connection gets OK true and is
+        pushed to a reading subscriber;
+      * on the disconnect the handler ends, nothing escapes it, nothing is sent to it afterwards; at the end the registry is empty and
+        no task is left.
+    Whether the messages that fell due while the client was not reading are delivered afterwards is counted, not judged."""
+    auth = rng.random() < 0.25
+    relay = Relay(backend, authentication={"enabled": True, "relay_urls": [URL], "actions": {}} if auth else None)
+    clock = _LoopClock(relay.loop)
+    gate = _Gate()
+    conns, log, failed = [], [], []
+    payload = {"backend": backend, "case": "slow-consumer-resumes", "nip42": auth, "tag": tag, "seconds_not_reading": STALL_S, "steps": log}
+
+    def fail(what, **more):
+        failed.append(what)
+        report.property_failure("%s: %s (step %d: %r)" % (backend, what, len(log), log[-1] if log else None),
+                                dict(copy.deepcopy(payload), **more), None)
+
+    def connect(addr, unstall=None):
+        c = Conn(relay, remote_addr=addr, start=False)
+        if unstall is not None:
+            c._unstall = unstall
+        c.task = relay.loop.create_task(c._main())
+        conns.append(c)
+        return c
+
+    def eose_for(c, n0, sub_id):
+        return any(isinstance(f, list) and len(f) > 1 and f[0] == "EOSE" and f[1] == sub_id for f in c.frames(n0))
+
+    def ok_for(c, n0, ev):
+        for f in c.frames(n0):
+            if isinstance(f, list) and len(f) > 2 and f[0] == "OK" and f[1] == ev["id"]:
+                return f[2]
+        return None
+
+    def pushed(c, n0, ev):
+        return Counter(f[1] for f in c.frames(n0) if isinstance(f, list) and len(f) > 2 and f[0] == "EVENT" and isinstance(f[2], dict)
+                       and f[2].get("id") == ev["id"])
+
+    try:
+        slow = connect("6.6.6.6", gate)
+        pub = connect("4.4.4.4")
+        watcher = connect("5.5.5.5")
+        authors = [k.public_key.hex() for k in KEYS]
+        subs = {}             # what the slow client has opened and not closed, from the messages it sent itself (id -> filter)
+        fresh = {"n": 0}
+
+        def at_rest():
+            """Relay.quiescent, except that the handler of a client that is not reading may itself be waiting in a send (then it is not
+            waiting for the next message, and the messages the client sends meanwhile stay in its buffer): that is rest, too"""
+            if not slow.done and slow.stalled and slow.task in gate.parked:
+                everybody = relay.conns
+                relay.conns = [c for c in everybody if c is not slow]
+                try:
+                    return relay.quiescent()
+                finally:
+                    relay.conns = everybody
+            return relay.quiescent()
+
+        def rest(patience=8.0):
+            return _until_quiet(relay, 3.0 if failed else patience, at_rest=at_rest)
+
+        def new_filter():
+            f = {}
+            r = rng.random()
+            if r < 0.7:
+                f["kinds"] = rng.choice([[1], [7], [1, 7], [EPHEMERAL], [1, EPHEMERAL], [1, 7, EPHEMERAL]])
+            if r > 0.5:
+                f["authors"] = rng.sample(authors, rng.choice([1, 1, 2]))
+            if rng.random() < 0.15:
+                f["#t"] = [rng.choice(["x", "y"])]
+            return f
+
+        def req(why):
+            sid = "s%d" % fresh["n"]
+            fresh["n"] += 1
+            f = new_filter()
+            log.append(["REQ", "slow", sid, f, why])
+            slow.send(["REQ", sid, f], settle=False)
+            subs[sid] = f
+            return sid
+
+        def event_for_slow(content):
+            """an event that at least one open subscription of the slow client matches (any event when it has none)"""
+            fresh["n"] += 1
+            f = subs[rng.choice(sorted(subs))] if subs else {}
+            return _event_matching(relay, rng, f, "%s %d %s %s" % (content, fresh["n"], backend, tag))
+
+        def others_served(why):
+            """an EVENT of the well-behaved publisher: OK true, pushed to the reading subscriber.  -> the event"""
+            ev = event_for_slow("published " + why)
+            log.append(["EVENT", "publisher", {"kind": ev["kind"], "pubkey": ev["pubkey"], "tags": ev["tags"]}, why])
+            n0, nw = len(pub.out), len(watcher.out)
+            pub.send(["EVENT", ev], settle=False)
+            rest()
+            ok = ok_for(pub, n0, ev)
+            if ok is not True:
+                fail("%s, a fresh valid EVENT of another connection was %s" % (why, "not answered" if ok is None else "refused"), event=ev)
+            elif not pushed(watcher, nw, ev):
+                fail("%s, an event accepted from another connection was not pushed to a reading subscriber" % why, event=ev)
+            return ev
+
+        # ---- an ordinary beginning -------------------------------------------------------------------------
+        rest()
+        watcher.send(["REQ", "w", {"kinds": [1, 7, EPHEMERAL]}], settle=False)
+        rest()
+        for i in range(rng.randint(0, 4)):
+            ev = relay.signed_event(KEYS[rng.randrange(3)], kind=rng.choice([1, 1, 7]), content="stored %d %s %s" % (i, backend, tag),
+                                    tags=[["t", rng.choice(["x", "y", "z"])]] if rng.random() < 0.4 else [], created_at=T0 + 100 + i)
+            pub.send(["EVENT", ev], settle=False)
+        rest()
+        n0 = len(slow.out)
+        first = [req("before") for _ in range(rng.randint(1, 3))]
+        rest()
+        silent = [sid for sid in first if not eose_for(slow, n0, sid)]
+        if silent:
+            fail("%d REQ(s) on an idle relay got no EOSE" % len(silent), subscriptions=silent)
+
+        # ---- the client stops reading, time passes, it reads again -----------------------------------------
+        rounds = rng.choice([1, 1, 2])
+        assert rounds * STALL_S < 0.9 * HARNESS_MESSAGE_TIMEOUT      # (the watcher sends nothing all the while)
+        closed_by_relay = False
+        for rnd in range(rounds):
+            if failed:
+                break
+            gate.clear()
+            slow.stalled = True
+            log.append(["stops-reading", "slow"])
+            during = []
+            for k in range(rng.randint(1, 4)):
+                # the first thing that happens falls due to the client (or its not reading is not noticeable at all)
+                what = rng.choice(["req", "live", "live", "event", "notice"] if k == 0 else ["req", "live", "live", "event", "notice", "close", "close"])
+                if what == "live" and not subs:
+                    what = "req"
+                if what == "req" and len(subs) < 8:
+                    during.append(req("while not reading"))
+                    rest()
+                elif what == "live":
+                    others_served("while another client was not reading its socket")
+                elif what == "event":
+                    ev = event_for_slow("own, while not reading")
+                    log.append(["EVENT", "slow", {"kind": ev["kind"], "pubkey": ev["pubkey"], "tags": ev["tags"]}, "while not reading"])
+                    slow.send(["EVENT", ev], settle=False)
+                    rest()
+                elif what == "notice":
+                    fresh["n"] += 1
+                    log.append(["REQ", "slow", "none%d" % fresh["n"], {"kinds": "x"}, "while not reading"])
+                    slow.send(["REQ", "none%d" % fresh["n"], {"kinds": "x"}], settle=False)
+                    rest()
+                elif what == "close" and subs:
+                    sid = rng.choice(sorted(subs))
+                    log.append(["CLOSE", "slow", sid, "while not reading"])
+                    slow.send(["CLOSE", sid], settle=False)
+                    del subs[sid]
+                    rest()
+                report.count("slow_consumer_while_not_reading_" + what)
+                if failed:
+                    break
+            if failed:
+                break
+            parked = {"sender": any(t is not slow.task for t in gate.parked), "handler": slow.task in gate.parked}
+            for who, is_parked in parked.items():
+                if is_parked:
+                    report.count("slow_consumer_stalls_with_the_%s_waiting_in_a_send" % who)
+            clock.advance(STALL_S)
+            log.append(["time-passes", STALL_S])
+            rest()
+            if rng.random() < 0.6:
+                others_served("%d s after another client had stopped reading its socket" % STALL_S)
+                if failed:
+                    break
+            mark = len(slow.out)
+            if slow.closed_with is not None and not slow.done:
+                slow.inbox.put_nowait(DISCONNECT)       # the relay closed the websocket meanwhile: the transport says so
+            slow.stalled = False
+            gate.set()
+            log.append(["reads-again", "slow"])
+            rest()
+            report.count("slow_consumer_stalls")
+            if slow.exc is not None:
+                fail("%s escaped the handler of a client that had not read its socket for %d s: %r" % (type(slow.exc).__name__, STALL_S, slow.exc))
+                break
+            if slow.done or slow.closed_with is not None:
+                # the relay gave the connection up: allowed.  The transport tells the handler (as a real websocket's receive does
+                # once the close went out); the handler must then end
+                closed_by_relay = True
+                report.count("slow_consumer_connections_closed_by_the_relay")
+                if slow.done and slow.closed_with is None:
+                    fail("the handler of the client that had not read its socket ended without closing the websocket")
+                if not slow.done:
+                    slow.inbox.put_nowait(DISCONNECT)
+                    rest()
+                subs.clear()
+                break
+            for sid in during:
+                report.count("slow_consumer_eose_of_a_req_sent_while_not_reading_" + ("delivered" if eose_for(slow, mark, sid) else "not_delivered"))
+            # -- the connection was kept: it works
+            kept = "the relay kept the connection of a client open that had not read its socket for %d s and reads again, but " % STALL_S
+            probes = ["req", "live"] + rng.sample(["req", "live", "event", "close"], rng.randint(0, 3))
+            rng.shuffle(probes)
+            for what in probes:
+                if failed:
+                    break
+                if what == "req" and len(subs) < 8:
+                    n0 = len(slow.out)
+                    sid = req("after reading again")
+                    rest()
+                    report.count("slow_consumer_req_after_resuming")
+                    if not eose_for(slow, n0, sid):
+                        fail(kept + "a REQ it sent after it resumed got no EOSE", subscription=sid, filter=subs[sid],
+                             frames_since=[t[:200] for t in slow.out[n0:n0 + 10]], messages_queued_for_it=slow._queue.qsize() if slow._queue else 0)
+                elif what == "live" and subs:
+                    n0 = len(slow.out)
+                    ev = others_served("after the client that had not been reading resumed")
+                    report.count("slow_consumer_live_event_after_resuming")
+                    want = sorted(sid for sid, f in subs.items() if _simple_match(f, ev))
+                    got = pushed(slow, n0, ev)
+                    missing = [sid for sid in want if sid not in got]
+                    if missing and not failed:
+                        fail(kept + "an event published afterwards that matches its open subscription(s) %r was pushed for %r only" % (want, sorted(got)),
+                             event=ev, open_subscriptions=dict(subs), missing=missing, messages_queued_for_it=slow._queue.qsize() if slow._queue else 0)
+                elif what == "event":
+                    ev = event_for_slow("own, after reading again")
+                    log.append(["EVENT", "slow", {"kind": ev["kind"], "pubkey": ev["pubkey"], "tags": ev["tags"]}, "after reading again"])
+                    n0 = len(slow.out)
+                    slow.send(["EVENT", ev], settle=False)
+                    rest()
+                    report.count("slow_consumer_event_after_resuming")
+                    ok = ok_for(slow, n0, ev)
+                    if ok is not True:
+                        fail(kept + "a fresh valid EVENT it sent after it resumed was %s" % ("not answered" if ok is None else "refused"), event=ev)
+                elif what == "close" and subs:
+                    sid = rng.choice(sorted(subs))
+                    log.append(["CLOSE", "slow", sid, "after reading again"])
+                    slow.send(["CLOSE", sid], settle=False)
+                    del subs[sid]
+                    rest()
+
+        # ---- endings ---------------------------------------------------------------------------------------
+        if slow.stalled:          # (only after a failure in mid-stall: what follows is the ordinary ending)
+            slow.stalled = False
+            gate.set()
+        if not slow.done:
+            log.append(["disconnect", "slow"])
+            slow.inbox.put_nowait(DISCONNECT)
+            rest()
+        if not slow.done:
+            fail("the handler of the client that had stopped reading and resumed did not end %s"
+                 % ("after the relay closed its websocket" if closed_by_relay else "on its disconnect"))
+        if slow.exc is not None:
+            fail("%s escaped the handler of the client that had stopped reading and resumed: %r" % (type(slow.exc).__name__, slow.exc))
+        residue = (len(slow.out), slow._queue.qsize() if slow._queue is not None else 0)
+        if not failed:
+            others_served("after the client that had stopped reading and resumed had gone")
+            if slow.done and (len(slow.out), slow._queue.qsize() if slow._queue is not None else 0) != residue:
+                fail("the connection of the slow client, which has ended, was sent or had queued for it something more")
+        for c in conns:
+            if not c.done:
+                c.inbox.put_nowait(DISCONNECT)
+        rest()
+        if any(not c.done for c in conns if c is not slow):
+            fail("the handler(s) of connection(s) %s did not end on their disconnect" % ", ".join(c.remote_addr for c in conns if not c.done))
+        for c in conns:
+            if c is not slow and c.done and c.exc is not None:
+                fail("closing connection %s escaped: %r" % (c.remote_addr, c.exc))
+        if all(c.done for c in conns):
+            if any(v for v in relay.open_subscriptions().values()):
+                fail("subscriptions survive their connections (slow consumer that resumed): %r" % relay.open_subscriptions())
+            left = [t for t in asyncio.all_tasks(relay.loop) if not t.done()]
+            names = sorted(getattr(t.get_coro(), "__qualname__", str(t)) for t in left)
+            leaked = [n for n in names if any(k in n for k in ("start_client", "send_subscriptions", "run_query", "notify", "_main"))]
+            if leaked:
+                fail("%d task(s) of ended connections are still pending: %r" % (len(leaked), sorted(set(leaked))))
+        report.case(("slow-resume", backend, tag, json.dumps(log, sort_keys=True)[:4000]), nontrivial=True,
+                    sample={"case": "slow-consumer-resumes", "backend": backend, "nip42": auth, "stalls": rounds, "seconds_not_reading": STALL_S,
+                            "steps": len(log), "closed_by_the_relay": closed_by_relay, "first_steps": log[:6]})
+        report.count("slow_consumer_sessions")
+        report.count("slow_consumer_steps", len(log))
+        return not failed
+    finally:
+        # (as in stalled_live_flood: a relay that has stopped moving would make Relay.close wait for each handler in turn)
+        stuck = [c for c in conns if not c.done]
+        rest_tasks = [c.task for c in stuck] + [t for t in asyncio.all_tasks(relay.loop) if not t.done() and any(
+            k in getattr(t.get_coro(), "__qualname__", "") for k in ("send_subscriptions", "run_query", "notify"))]
+        for t in rest_tasks:
+            t.cancel()
+        if rest_tasks:
+            relay.run(asyncio.wait(rest_tasks, timeout=2.0))
+        for c in stuck:
+            c.done = True
+        relay.close()
+
+
 KEYS = []
 # (events, live subscriptions of the silent client) per backend: the two axes along which the undelivered messages grow.  An event
 # costs a few ms on LMDB (ephemeral: no write) and tens of ms on SQLite (every insert is several round trips to the aiosqlite
@@ -1087,6 +1448,8 @@ LIVE_FLOODS = {"quick": {"kv": [(2500, 1)], "sql": [(250, 30)]},
 
 # (sessions, steps per session) of midlife_sessions: a step is one settled message, ~10 ms on LMDB and ~25 ms on SQLite
 MIDLIFE = {"quick": {"sql": (10, 40), "kv": (12, 40)}, "thorough": {"sql": (80, 80), "kv": (120, 80)}}
+# sessions of slow_consumer_resumes (1-2 stalls of STALL_S each, ~20-40 settled messages)
+SLOW_RESUME = {"quick": {"sql": 16, "kv": 20}, "thorough": {"sql": 150, "kv": 250}}
 
 
 def run(report, tier, seed):
@@ -1113,7 +1476,14 @@ def run(report, tier, seed):
         "another identity, buffered together with the next command - arrives at random points between REQ (new / re-used id, no usable "
         "filter), CLOSE (open / unknown id), EVENT and disconnect: after every step the registry holds exactly the subscriptions "
         "opened and not closed, every fresh event is pushed once to exactly the open matching subscriptions of every connection, "
-        "nothing is sent to or queued for an ended connection, at the end no task is left; non-trivial = the frame got an answer")
+        "nothing is sent to or queued for an ended connection, at the end no task is left; slow consumers that resume: a client with "
+        "1-3 subscriptions stops reading while 1-4 things fall due to it (stored answer of a REQ, live pushes, OK of an own EVENT, "
+        "NOTICE; its sender task and / or its handler wait in the send), it may go on sending REQ / CLOSE / EVENT, 1500 s pass on the "
+        "loop's clock (advanced, not waited for: longer than any bound on a send that is to act before the 1800 s idle timeout), it "
+        "reads again, once or twice per session, with and without NIP-42: either the relay closed the connection (the handler ends) or "
+        "every REQ sent afterwards gets its EOSE, every EVENT its OK true, an event published by another connection afterwards "
+        "arrives for every open matching subscription; the others are served throughout; clean ending, empty registry, no task left; "
+        "non-trivial = the frame got an answer")
     report.assumptions += ["quiescence after every frame", "the websocket layer (falcon/uvicorn) is replaced by in-memory callables; "
                            "frame size limits of the real server are not in scope"]
     try:
@@ -1136,6 +1506,12 @@ def run(report, tier, seed):
             n_sessions, n_steps = MIDLIFE[tier if tier == "quick" else "thorough"][backend]
             for i in range(n_sessions):
                 midlife_sessions(report, backend, rng, i, n_steps)
+        for backend in ("sql", "kv"):
+            for i in range(SLOW_RESUME[tier if tier == "quick" else "thorough"][backend]):
+                if not slow_consumer_resumes(report, backend, rng, i):
+                    # the failing session is recorded; every further one would wait for the same connection that no longer moves
+                    report.count("slow_consumer_sessions_not_run_after_a_failing_one")
+                    break
     finally:
         drv.close()
 
